@@ -801,3 +801,131 @@ func runR146(c *core.Ctx) {
 		}
 	}
 }
+
+// checkRandConfined (R14.12): a *math/rand.Rand is not safe for concurrent use. Every struct field of that type in the
+// batching pool is used from at most one of the goroutines the package starts: the set of `go`-started functions from
+// which a method call on the field's value is reachable (static calls inside the package) has at most one element.
+// A generator shared by two goroutines is a data race, and a torn generator state can index out of range and panic.
+func checkRandConfined(c *core.Ctx, rule string) {
+	fns := pkgFuncs(c, relBatched)
+	// go roots
+	roots := map[*ssa.Function]bool{}
+	for _, fn := range fns {
+		ssax.Instrs(fn, func(ins ssa.Instruction) {
+			if g, ok := ins.(*ssa.Go); ok {
+				if callee := g.Call.StaticCallee(); callee != nil {
+					roots[callee] = true
+				}
+				if mc, ok := g.Call.Value.(*ssa.MakeClosure); ok {
+					roots[mc.Fn.(*ssa.Function)] = true
+				}
+			}
+		})
+	}
+	// static call graph inside the package
+	callees := map[*ssa.Function][]*ssa.Function{}
+	for _, fn := range fns {
+		ssax.Instrs(fn, func(ins ssa.Instruction) {
+			if _, isGo := ins.(*ssa.Go); isGo {
+				return
+			}
+			if cc := ssax.CallOf(ins); cc != nil {
+				if callee := cc.StaticCallee(); callee != nil && callee.Pkg == fn.Pkg {
+					callees[fn] = append(callees[fn], callee)
+				}
+			}
+		})
+	}
+	// a function that allocates a pool object is that object's constructor: what it calls runs before the object is
+	// shared, so it is not followed (the new object's generator is still private)
+	constructs := func(f *ssa.Function) bool {
+		found := false
+		ssax.Instrs(f, func(ins ssa.Instruction) {
+			if al, ok := ins.(*ssa.Alloc); ok && al.Heap {
+				if n := namedOf(al.Type()); n != nil && n.Obj().Pkg() != nil && n.Obj().Pkg().Path() == core.Mod+"/"+relBatched {
+					if _, isStruct := n.Underlying().(*types.Struct); isStruct {
+						found = true
+					}
+				}
+			}
+		})
+		return found
+	}
+	reach := func(root *ssa.Function) map[*ssa.Function]bool {
+		seen := map[*ssa.Function]bool{}
+		var walk func(f *ssa.Function)
+		walk = func(f *ssa.Function) {
+			if seen[f] {
+				return
+			}
+			seen[f] = true
+			if f != root && constructs(f) {
+				return
+			}
+			for _, g := range callees[f] {
+				walk(g)
+			}
+			for _, a := range f.AnonFuncs {
+				walk(a)
+			}
+		}
+		walk(root)
+		return seen
+	}
+	reachOf := map[*ssa.Function]map[*ssa.Function]bool{}
+	for r := range roots {
+		reachOf[r] = reach(r)
+	}
+	// uses per field
+	type fieldKey struct{ typ, field string }
+	users := map[fieldKey]map[*ssa.Function]bool{}
+	for _, fn := range fns {
+		ssax.Instrs(fn, func(ins ssa.Instruction) {
+			cc := ssax.CallOf(ins)
+			if cc == nil || !strings.HasPrefix(ssax.CalleeName(cc), "(*math/rand.Rand).") || len(cc.Args) == 0 {
+				return
+			}
+			for _, d := range ssax.Defs(cc.Args[0]) {
+				u, ok := ssax.Unwrap(d).(*ssa.UnOp)
+				if !ok {
+					continue
+				}
+				fa, ok := u.X.(*ssa.FieldAddr)
+				if !ok {
+					continue
+				}
+				f, _ := ssax.FieldName(fa)
+				k := fieldKey{ssax.ShortType(fa.X.Type()), f}
+				if users[k] == nil {
+					users[k] = map[*ssa.Function]bool{}
+				}
+				users[k][fn] = true
+			}
+		})
+	}
+	n := 0
+	var keys []fieldKey
+	for k := range users {
+		keys = append(keys, k)
+	}
+	sort.Slice(keys, func(i, j int) bool { return keys[i].typ+keys[i].field < keys[j].typ+keys[j].field })
+	for _, k := range keys {
+		n++
+		var from []string
+		for r, set := range reachOf {
+			for u := range users[k] {
+				if set[u] {
+					from = append(from, core.FuncName(r))
+					break
+				}
+			}
+		}
+		sort.Strings(from)
+		key := "batched." + strings.TrimPrefix(k.typ, "*") + "." + k.field + "#one-goroutine"
+		c.Check(len(from) <= 1, rule, key, "-", fmt.Sprintf("used from %d of the goroutines the package starts", len(from)),
+			"the generator in field "+k.field+" of "+k.typ+" is used from the goroutines "+strings.Join(from, " and ")+": math/rand.Rand is not safe for concurrent use - a data race, and a torn state can panic inside the generator")
+	}
+	if n == 0 {
+		c.Info(rule, "batched#rand-fields", "-", "no *rand.Rand struct field is used in the batching pool")
+	}
+}
